@@ -103,9 +103,14 @@ class EASRadio:
 
         Re = R_earth.to(km).value
         B_angle = np.ones(altDec[mask].shape)
+        # the law-of-cosines ratio is in [-1, 1] geometrically; rounding of altDec can exceed it for tiny lenDec
         B_angle *= np.pi / 2.0 - np.arccos(
-            (lenDec[mask] ** 2.0 + (altDec[mask] + Re) ** 2.0 - Re**2.0)
-            / (2.0 * lenDec[mask] * (altDec[mask] + Re))
+            np.clip(
+                (lenDec[mask] ** 2.0 + (altDec[mask] + Re) ** 2.0 - Re**2.0)
+                / (2.0 * lenDec[mask] * (altDec[mask] + Re)),
+                -1.0,
+                1.0,
+            )
         )
         bounds = np.radians(30.0)
         B_angle += np.random.uniform(-1.0 * bounds, bounds, altDec[mask].shape)
